@@ -65,6 +65,7 @@ impl TruthTable<String> {
             determine_variables(file_row_count, &mut maybe_header_record)?;
 
         let mut outputs = vec![false; 2_usize.pow(variable_column_index_map.len() as u32)];
+        let mut is_row_filled = vec![false; outputs.len()];
 
         // Without a header, the first record is already a data row.
         let first_data_record = if is_header(&maybe_header_record)? {
@@ -94,6 +95,13 @@ impl TruthTable<String> {
                     .collect::<Vec<_>>(),
                 &valuation,
             );
+
+            if is_row_filled[index] {
+                return Err(TruthTableFromCsvError::DuplicateRow {
+                    row_index: csv_row_index,
+                });
+            }
+            is_row_filled[index] = true;
 
             // access safe due to ensure_record_count check above
             outputs[index] = parse_output_column(&record)?;
